@@ -81,9 +81,13 @@ def run(chk):
                     chk.fail(f"field-function:{name}", f"equilibrium.{name} is not the corresponding derivative of the psi interpolant",
                              {"box": {kk: b[kk] for kk in ("rmin", "rmax", "zmin", "zmax")}, "point": b["points"][k], "got": float(got[k]), "expected": float(ref[k])})
     # ---- grids: every point lies on the integral curve of grad psi through its skeleton point
-    grids = [g for g in corpus.get(tier=chk.tier)]
+    # a member with a loose point-refinement tolerance and the default integration tolerances: refinement moves points ALONG grad(psi) only, so the
+    # radial grid lines must follow grad(psi) just as closely as with the default
+    extra = [corpus.tok("lsn_loose_refine", "lsn", corpus.SN, options=dict(refine_atol=1.0e-4), must_build=True)]
+    grids = [g for g in corpus.get(tier=chk.tier, extra_cfgs=extra)]
     n = 0
     worst = {}
+    sideways = {}
     wseg = 0.0
     for g in grids:
         if not g.ok or g.cfg["kind"] != "tokamak" or not g.d["mesh"]["user_options"].get("orthogonal", True):
@@ -111,6 +115,13 @@ def run(chk):
                 n += int(ok.sum())
                 if ok.any():
                     w = max(w, float(d[ok].max()))
+                    # the part of the deviation ACROSS grad(psi) (what the integration of the radial line is responsible for; point refinement
+                    # moves points along grad(psi) only)
+                    gR, gZ = spl(ref[:, 0], ref[:, 1], dx=1, grid=False), spl(ref[:, 0], ref[:, 1], dy=1, grid=False)
+                    gm = np.hypot(gR, gZ)
+                    side = np.abs((got[:, 0] - ref[:, 0]) * (-gZ) + (got[:, 1] - ref[:, 1]) * gR) / np.where(gm > 0, gm, np.nan)
+                    if np.isfinite(side[ok]).any():
+                        sideways[g.name] = max(sideways.get(g.name, 0.0), float(np.nanmax(side[ok])))
                     if d[ok].max() > 2e-5:
                         ci = int(np.nanargmax(np.where(ok, d, 0)))
                         chk.fail("off-curve", "a grid point is not on the integral curve of grad(psi) through its skeleton point (orthogonal grid)",
@@ -139,6 +150,11 @@ def run(chk):
                              {"grid": g.name, "region": nm, "radial_segments": [k, k + 1], "location": loc, "poloidal_index": j, "jump_m": float(d[j])})
         worst[g.name] = float(f"{w:.3g}")
     chk.notes["max_jump_between_radial_segments_m"] = wseg
+    chk.notes["max_sideways_deviation_m"] = {k: float(f"{v:.3g}") for k, v in sideways.items()}
+    # loosening refine_atol must not change how closely the radial lines follow grad(psi): same equilibrium, same integration tolerances
+    if "lsn" in sideways and "lsn_loose_refine" in sideways and sideways["lsn_loose_refine"] > 3.0 * sideways["lsn"] + 5e-8:
+        chk.fail("off-curve:refine_atol-changes-the-radial-lines", "with a loosened refine_atol (and the same integration tolerances) the radial grid lines deviate sideways from the integral "
+                 "curves of grad(psi) several times more than with the default", {"grids": ["lsn", "lsn_loose_refine"], "max_sideways_deviation_m": [sideways["lsn"], sideways["lsn_loose_refine"]]})
     chk.count(evaluations=nfield + n, distinct=nfield + n)
     chk.cov["rule"] = "field functions at random + near-edge points of 5 boxes (incl. Zmax > Rmax); every sampled skeleton point x every flux surface of every region of the orthogonal corpus grids"
     chk.notes["correspondence"] = {"field_values": nfield, "grid_points": n, "max_distance_from_reference_curve_m": worst}
